@@ -7,7 +7,8 @@ prop("C03", pkg="c03", fuzz=[("FuzzProtoRoundTrip", 60)],
           "with the custom methods plus the marker (CustomSPM, which the library encodes as an ordinary struct by reflection), a slice-kinded custom type whose MarshalTo copies without checking for room (CustomCopy) and a Message "
           "implementer whose Marshal indexes its buffer assuming len(b) >= Size() (MsgTrust) - the library has to provide the room -, all usable in every position (field, pointer, "
           "pointer chain, repeated element, map value, top level), three recursive structs, a struct with an unexported field, a protoc-style proto2 struct) and then 12 value recipes "
-          "per type (boundary-heavy integers and floats incl. -0/NaN payloads/Inf, nil vs empty, repeated fields of 0..40 elements and 8 % beyond 40 (cheap element types up to 2500, thorough 5000) plus a sub-check whose values all carry a repeated field of 1001..2500 (thorough 5000) elements), "
+          "per type (boundary-heavy integers and floats incl. -0/NaN payloads/Inf, nil vs empty, 2 % of string / bytes / implementer payload lengths on or next to the width boundaries of the length-prefix varint "
+          "(2^7 and 2^14: B-4..B+1, so that the payload itself or a message wrapping it lands on the boundary; thorough tier also 2^21) and byte arrays of 127..129 / 16383..16385 bytes, repeated fields of 0..40 elements and 8 % beyond 40 (cheap element types up to 2500, thorough 5000) plus a sub-check whose values all carry a repeated field of 1001..2500 (thorough 5000) elements), "
           "each marshalled by value or (25 %) by pointer. One evaluation = one (type, value, by-pointer) case through Marshal, Size, Unmarshal, Marshal again. "
           "Non-trivial = the built value is not the zero value of its type; distinct = FNV-64 of (type descriptor JSON, value recipe JSON, by-pointer). "
           "Thorough tier only: a native Go fuzzing campaign FuzzProtoRoundTrip (60 s, 16 workers, not seed-reproducible - the saved input is the reproducible unit) over "
